@@ -32,6 +32,18 @@ def main():
             if not ok:
                 print("\n".join(p.stdout.splitlines()[-15:]))
                 shutil.rmtree(warm, ignore_errors=True)
+        # native differential check of the string stubs' contract (precis_ascii / qs_plain)
+        import json
+        tdir = os.path.join(sc.src, "stun-rs", "tests")
+        os.makedirs(tdir, exist_ok=True)
+        shutil.copy(os.path.join(driver.VERIF, "native", "stub_contract.rs"), os.path.join(tdir, "verif_stub_contract.rs"))
+        env = dict(os.environ, CARGO_NET_OFFLINE="true", CARGO_TARGET_DIR=os.path.join(sc.base, "tgt_native"))
+        p = subprocess.run(["cargo", "test", "--offline", "-p", "stun-rs", "--test", "verif_stub_contract"], cwd=sc.src, env=env,
+                           stdout=subprocess.PIPE, stderr=subprocess.STDOUT, text=True)
+        ok = "test result: ok. 1 passed" in p.stdout
+        with open(os.path.join(driver.CACHE, "stub_contract.json"), "w") as f:
+            json.dump({"ok": ok, "what": "precis_ascii/qs_plain contract on all 1- and 2-character plain-ASCII strings through UserName/Realm/Nonce::new and the decoder", "tail": p.stdout[-300:] if not ok else ""}, f)
+        print("setup: string-stub contract (native differential) %s" % ("ok" if ok else "FAILED"))
     finally:
         sc.destroy()
     return rc
